@@ -11,6 +11,7 @@ Ok(e) == /\ e.k = "clipline"
          /\ IF e.re = 1 THEN Pre(e) ELSE Assert(Pre(e), <<"generator fault: crossing off the lattice", e>>)
          /\ e.mod = 0                                                 \* input not modified
          /\ e.pstable = 1                                             \* the previous call's result was left alone
+         /\ e.dense = 1                                               \* cut into thousands of short segments: the same pieces
          /\ AllInBox(e.box, e.out)
          /\ \A i \in 1..Len(e.out) : Len(e.out[i]) >= 1
          /\ Norm(e.out) = ExpectedAll(e.box, e.paths, 1, e.open = 1)
